@@ -25,12 +25,12 @@ PROPS = {}
 TWINS = {}     # verus fn label -> kani harness that searches for a concrete failing input of the same obligation
 
 # batches that are wired into checks (a batch under construction is simply not listed here yet)
-READY = ['core', 'eslice', 'op_eval', 'cfi_entries', 'cfi_unwind', 'line', 'attrs', 'units', 'dwarf_ranges', 'index', 'relocate',
+READY = ['core', 'eslice', 'op_eval', 'cfi_entries', 'cfi_uctx', 'cfi_uctx_link', 'line_hdr', 'attrs', 'units', 'dwarf_ranges', 'index', 'relocate',
          'conv', 'filter', 'wcore', 'wreloc', 'wop', 'wlists', 'wunit', 'wcfi', 'wline']
 # batch -> batches whose items it re-verifies completely (so the smaller one need not run as well)
-SUPERSEDES = {'op_eval': ['op'], 'dwarf_ranges': ['lists']}
+SUPERSEDES = {'op_eval': ['op'], 'dwarf_ranges': ['lists'], 'cfi_uctx_link': ['cfi_unwind'], 'line_hdr': ['line']}
 # tags that only quote another property's vocabulary inside a batch (not obligations of that property)
-IGNORE = {('wline', 'C12'), ('filter', 'C01'), ('filter', 'C07'), ('wunit', 'C03'), ('wunit', 'C15'), ('wlists', 'C15'), ('conv', 'C05'), ('index', 'C09')}
+IGNORE = {('line_hdr', 'C03'), ('wline', 'C12'), ('filter', 'C01'), ('filter', 'C07'), ('wunit', 'C03'), ('wunit', 'C15'), ('wlists', 'C15'), ('conv', 'C05'), ('index', 'C09')}
 
 ND = {
     'C01': 'entry points not extracted (macros.rs, names.rs entry pool, Dwarf/DwarfSections loaders, DwarfPackage, ConvertUnit*), stack depth '
